@@ -28,7 +28,8 @@ From Oras Require Import Base.Prelude Base.Regex Generated.GC20 Generated.GC13 M
    statement is false without that last hypothesis. *)
 Theorem C13_refines_store_partial :
   forall (H : str -> str) (parse_mt : str -> option str) (subject_of : str -> option (option desc))
-         (main other : str) (user_mts : list str) (limit : N) (p : profile),
+         (main other : str) (user_mts : list str) (limit : N) (skip_gc : bool)
+         (index_of : str -> option (list desc)) (p : profile),
     str_eqb main other = false ->
     parse_mt ct_octet = Some ct_octet ->
     (forall c, valid_digest (H c) = true) ->
@@ -36,7 +37,7 @@ Theorem C13_refines_store_partial :
       (forall d c, lookup d other_blobs = Some c -> d = H c) ->
       rst_ok p rst ->
       wf_hist H parse_mt subject_of main user_mts limit p (mkStore [] [] [] other_blobs) os ->
-      run_history H parse_mt subject_of main other user_mts limit p None other_blobs rst os = (g, out) ->
+      run_history H parse_mt subject_of main other user_mts limit skip_gc index_of p None other_blobs rst os = (g, out) ->
       map snd out = snd (spec_run H subject_of main user_mts (mkStore [] [] [] other_blobs) os) /\
       store_of g = fst (spec_run H subject_of main user_mts (mkStore [] [] [] other_blobs) os).
 Proof. exact run_history_refines. Qed.
@@ -45,7 +46,7 @@ Print Assumptions C13_refines_store_partial.
 (* without the digest-header hypothesis the full statement is false (finding
    head-tag-no-digest-header): PushReference under a tag succeeds, Resolve of the tag fails *)
 Theorem C13_refines_store_refuted :
-  map snd (snd (run_history w_H (fun s => Some s) (fun _ => Some None) (b "app") (b "src") [] w_limit
+  map snd (snd (run_history w_H (fun s => Some s) (fun _ => Some None) (b "app") (b "src") [] w_limit false w_index_of
                             w_profile None [] RSUnknown w_ops))
   = [ROk; RErr EOther] /\
   snd (spec_run w_H (fun _ => Some None) (b "app") [] (mkStore [] [] [] []) w_ops) = [ROk; RDesc w_desc].
@@ -59,10 +60,11 @@ Print Assumptions C13_refines_store_refuted.
    C13_refines_store_partial -- [wf_op] puts no other condition on the profile. *)
 Theorem C13_resolve_tag_needs_header :
   forall (H : str -> str) (parse_mt : str -> option str) (subject_of : str -> option (option desc))
-         (main other : str) (user_mts : list str) (limit : N) (p : profile) g n rst rs rf d mt c,
+         (main other : str) (user_mts : list str) (limit : N) (skip_gc : bool)
+         (index_of : str -> option (list desc)) (p : profile) g n rst rs rf d mt c,
     resolve_ref main rs = Some rf -> valid_digest rf = false ->
     man_lookup (store_of g) rf = Some (d, (mt, c)) -> p_dighdr p = false ->
-    snd (run_op H parse_mt subject_of main other user_mts limit (reg * N)
+    snd (run_op H parse_mt subject_of main other user_mts limit skip_gc index_of (reg * N)
                 (cexch H subject_of main other p None) (g, n) rst (OResolve rs)) = RErr EOther /\
     snd (spec_op H subject_of main user_mts (store_of g) (OResolve rs)) = RDesc (mkDesc mt d (len c)).
 Proof. exact resolve_tag_needs_header. Qed.
@@ -70,10 +72,11 @@ Print Assumptions C13_resolve_tag_needs_header.
 
 Theorem C13_fetchref_tag_needs_header :
   forall (H : str -> str) (parse_mt : str -> option str) (subject_of : str -> option (option desc))
-         (main other : str) (user_mts : list str) (limit : N) (p : profile) g n rst rs rf d mt c,
+         (main other : str) (user_mts : list str) (limit : N) (skip_gc : bool)
+         (index_of : str -> option (list desc)) (p : profile) g n rst rs rf d mt c,
     resolve_ref main rs = Some rf -> valid_digest rf = false ->
     man_lookup (store_of g) rf = Some (d, (mt, c)) -> p_dighdr p = false -> p_clen p = false ->
-    snd (run_op H parse_mt subject_of main other user_mts limit (reg * N)
+    snd (run_op H parse_mt subject_of main other user_mts limit skip_gc index_of (reg * N)
                 (cexch H subject_of main other p None) (g, n) rst (OFetchRef rs)) = RErr EOther /\
     snd (spec_op H subject_of main user_mts (store_of g) (OFetchRef rs)) = RDescBytes (mkDesc mt d (len c)) c.
 Proof. exact fetchref_tag_needs_header. Qed.
@@ -92,10 +95,11 @@ Proof. exact all_profiles_covered. Qed.
 (* Predecessors over the Referrers API returns exactly the stored manifests whose
    subject is the given descriptor (any registry state, no hypothesis on the history) *)
 Theorem C13_predecessors_reflect :
-  forall (H : str -> str) (subject_of : str -> option (option desc)) (main other : str) (p : profile)
+  forall (H : str -> str) (parse_mt : str -> option str) (subject_of : str -> option (option desc))
+         (main other : str) (user_mts : list str) (limit : N) (index_of : str -> option (list desc)) (p : profile)
          g n rst d,
     p_referrers p = true -> rst <> RSUnsupported ->
-    predecessors main (reg * N) (cexch H subject_of main other p None) (g, n) rst d
+    predecessors H parse_mt main user_mts limit index_of (reg * N) (cexch H subject_of main other p None) (g, n) rst d
     = ((g, n + 1), RSSupported,
        [(req GET main (EReferrers (d_dg d)),
          mkResp 200 (Some mt_index) None None None false None
@@ -179,13 +183,15 @@ Proof. exact refines_store_nonvacuous. Qed.
    the Location of a POST answer, when present, is an upload session. *)
 Theorem C13_requests_allowed :
   forall (H : str -> str) (parse_mt : str -> option str) (subject_of : str -> option (option desc))
-         (main other : str) (user_mts : list str) (limit : N)
+         (main other : str) (user_mts : list str) (limit : N) (skip_gc : bool)
+         (index_of : str -> option (list desc))
          (srv : Type) (exch : srv -> request -> srv * response),
     valid_repository main = true -> valid_repository other = true ->
     loc_ok srv exch ->
+    (forall c, valid_digest (H c) = true) ->
     forall os s rst s' rst' out,
       Forall op_ok os ->
-      run_ops H parse_mt subject_of main other user_mts limit srv exch s rst os = (s', rst', out) ->
+      run_ops H parse_mt subject_of main other user_mts limit skip_gc index_of srv exch s rst os = (s', rst', out) ->
       Forall (fun tr => Forall (fun qr => allowed (fst qr) = true) (fst tr)) out.
 Proof. exact run_ops_allowed. Qed.
 Print Assumptions C13_requests_allowed.
@@ -194,11 +200,13 @@ Print Assumptions C13_requests_allowed.
    field except the status: every request of every history is allowed *)
 Theorem C13_requests_allowed_registry :
   forall (H : str -> str) (parse_mt : str -> option str) (subject_of : str -> option (option desc))
-         (main other : str) (user_mts : list str) (limit : N) (p : profile) (kor : option (N * corruption))
+         (main other : str) (user_mts : list str) (limit : N) (skip_gc : bool)
+         (index_of : str -> option (list desc)) (p : profile) (kor : option (N * corruption))
          other_blobs rst os g out,
     valid_repository main = true -> valid_repository other = true ->
+    (forall c, valid_digest (H c) = true) ->
     no_status_corruption kor -> Forall op_ok os ->
-    run_history H parse_mt subject_of main other user_mts limit p kor other_blobs rst os = (g, out) ->
+    run_history H parse_mt subject_of main other user_mts limit skip_gc index_of p kor other_blobs rst os = (g, out) ->
     Forall (fun tr => Forall (fun qr => allowed (fst qr) = true) (fst tr)) out.
 Proof. exact run_history_allowed. Qed.
 Print Assumptions C13_requests_allowed_registry.
@@ -294,6 +302,34 @@ Theorem C13_corruption_rejected_fetch_reference :
                       gen_desc H parse_mt limit r2 rf true = Some d)).
 Proof. exact man_fetchref_consistent. Qed.
 Print Assumptions C13_corruption_rejected_fetch_reference.
+
+(* the referrers tag schema (registries without the Referrers API): the referrers index read
+   through the referrers tag is used -- by Referrers/Predecessors and by the index update on
+   push/delete of a manifest with a subject -- only if the body received is exactly what the
+   descriptor derived from the SAME response says (length = Content-Length, digest = the digest
+   header or the computed one) and decodes; whatever the server answers *)
+Theorem C13_corruption_rejected_referrers_index :
+  forall (H : str -> str) (parse_mt : str -> option str) (main : str) (user_mts : list str) (limit : N)
+         (index_of : str -> option (list desc))
+         (srv : Type) (exch : srv -> request -> srv * response) s tag s' t d l,
+    referrers_from_index H parse_mt main user_mts limit index_of srv exch s tag = (s', t, ROk, Some (d, l)) ->
+    exists body,
+      man_fetchref H parse_mt main user_mts limit srv exch s tag = (s', t, RDescBytes d body) /\
+      len body = d_sz d /\ H body = d_dg d /\ d_sz d <= limit /\ index_of body = Some l.
+Proof. exact referrers_index_consistent. Qed.
+Print Assumptions C13_corruption_rejected_referrers_index.
+
+Theorem C13_corruption_rejected_tag_schema_referrers :
+  forall (H : str -> str) (parse_mt : str -> option str) (main : str) (user_mts : list str) (limit : N)
+         (index_of : str -> option (list desc))
+         (srv : Type) (exch : srv -> request -> srv * response) s d s' t l,
+    tag_schema_referrers H parse_mt main user_mts limit index_of srv exch s d = (s', t, RDescs l) ->
+    l = [] \/
+    exists id body idx,
+      man_fetchref H parse_mt main user_mts limit srv exch s (ref_tag (d_dg d)) = (s', t, RDescBytes id body) /\
+      len body = d_sz id /\ H body = d_dg id /\ index_of body = Some idx /\ l = clean_refs [] idx.
+Proof. exact tag_schema_consistent. Qed.
+Print Assumptions C13_corruption_rejected_tag_schema_referrers.
 
 (* blob FetchReference: also when the GET has no Content-Length (descriptor from a HEAD), the
    digest header of the GET, whose body is returned, must not contradict the digest asked for *)
